@@ -20,6 +20,7 @@ package main
 
 import (
 	"fmt"
+	"os"
 	"reflect"
 	"strconv"
 	"strings"
@@ -74,13 +75,56 @@ func c18Par(kv map[string]string) string {
 		raceMu.Lock()
 		defer raceMu.Unlock()
 		before := raceLogSize()
-		obs := c18ParRun(kv)
+		obs := c18ParRepeat(kv)
 		if raceLogSize() > before {
 			return "RACE " + raceSince(before)
 		}
 		return obs
 	}
-	return c18ParRun(kv)
+	return c18ParRepeat(kv)
+}
+
+// c18ParRepeat: whether two goroutines collide inside the code under test depends on the schedule.  A REPLAY (`-in`: one
+// case, an idle machine) runs the case up to 60 times and hands back the first observation in which a goroutine got
+// DIFFERENT results for its identical operations (on a correct tree that never happens: every observation is the same,
+// and a generated run executes every case once).
+func c18ParRepeat(kv map[string]string) string {
+	n := 1
+	for _, a := range os.Args[1:] {
+		if a == "-in" || a == "--in" || strings.HasPrefix(a, "-in=") || strings.HasPrefix(a, "--in=") {
+			n = 60
+		}
+	}
+	obs := ""
+	for i := 0; i < n; i++ {
+		obs = c18ParRun(kv)
+		if parSuspicious(obs) {
+			break
+		}
+	}
+	return obs
+}
+
+func parSuspicious(obs string) bool {
+	if !strings.HasPrefix(obs, "par res=") || strings.Contains(obs, " shared=") {
+		return true
+	}
+	res := strings.SplitN(strings.TrimPrefix(obs, "par res="), " ", 2)[0]
+	for _, g := range strings.Split(res, ";") {
+		distinct := map[string]bool{}
+		for _, t := range strings.Split(g, ",") {
+			if i := strings.LastIndex(t, "*"); i >= 0 {
+				t = t[:i]
+			}
+			if t != "made" && t != "" {
+				distinct[t] = true
+			}
+		}
+		if len(distinct) > 1 {
+			return true
+		}
+	}
+	return false
 }
 
 func c18ParRun(kv map[string]string) string {
@@ -242,7 +286,7 @@ func c18ParRun(kv map[string]string) string {
 		rs = append(rs, rle(r))
 	}
 	return fmt.Sprintf("par res=%s prods=%d cells=%d own=%d d=%d c=%d r=%d", strings.Join(rs, ";"), len(w.products), len(cells), own,
-		cnt['D'], cnt['C'], cnt['R'])
+		cnt['D'], cnt['C'], cnt['R']) + w.sharedText()
 }
 
 // parGen: n cases over the valid shapes
@@ -266,8 +310,10 @@ func parGen(r interface{ Intn(int) int }, shapes []string, n int) []string {
 				u[k] = "_"
 				if sh[1] != 'n' {
 					switch r.Intn(6) {
-					case 0, 1, 2:
+					case 0, 1:
 						u[k] = val()
+					case 2:
+						u[k] = []string{"0", val()}[r.Intn(2)]
 					case 3:
 						if ext {
 							u[k] = "~"
